@@ -18,6 +18,7 @@ import MsVerif.Lemmas.ExprBuild
 import MsVerif.Lemmas.ChecksumString
 import MsVerif.Lemmas.ExprRound
 import MsVerif.Lemmas.ExprPrint
+import MsVerif.Lemmas.ExprBuildTree
 
 namespace MsVerif.C11
 open MsVerif MsVerif.Expr MsVerif.Checksum
@@ -288,19 +289,11 @@ example : err? (parseNum "007".toList) = some .invalidLeadingDigit := by decide 
 
 /-! ## round trip (expression grammar) -/
 
-/-- the full round-trip statement `Tree::from_str (print t) = t`; not proved here (the flat
-node table would have to be related to the inductive tree by a second invariant).  It is
-exercised on every run: `C exprtree` compares the complete node table of the implementation
-with the model on printed random trees. -/
-def parse_print_roundtrip_full : Prop :=
-  ∀ t : Tree, (∀ c ∈ t.print, validChar c = true ∧ c ≠ '#') →
-    ∃ nodes, fromStrInner t.print = .ok nodes ∧ toTree nodes = some t
-
 /-- **the parser accepts everything the printer emits** (proved part of the round trip): for
 every well-formed tree (names free of `(){},#`, a node has brackets iff it has children) of depth
 ≤ 403, `Tree::from_str (print t)` succeeds, without reaching a panic site, with exactly
-`size t` nodes, none deeper than `depth t`.  Missing for `parse_print_roundtrip_full`: that the
-node table's names, bracket kinds and child counts are those of `t`. -/
+`size t` nodes, none deeper than `depth t`.  (`parse_print_roundtrip` below adds that the table
+carries exactly `t`; the name keeps its `_partial` suffix for the users of this statement.) -/
 theorem printed_tree_accepted_partial (t : Tree) (hw : t.WF) (hd : t.depth ≤ 403) :
     ∃ nodes, fromStrInner t.print = .ok nodes ∧ nodes.size = t.size ∧
       ∀ i, i < nodes.size → ∃ d, d ≤ t.depth ∧ HasDepth nodes i d := by
@@ -331,6 +324,51 @@ theorem printed_deep_tree_rejected (t : Tree) (hw : t.WF) (hd : 403 < t.depth) :
   have : t.depth > MAX_RECURSION_DEPTH + 1 := by simp only [MAX_RECURSION_DEPTH]; omega
   rw [e1]
   simp only [this, if_true, throw, throwThe, MonadExceptOf.throw, err?]
+
+/-- **expression grammar round trip** `Tree::from_str (print t) = t`, for EVERY tree that the
+printer prints injectively: well-formed (names free of `(){},#` and of characters outside the
+charset; a node has brackets iff it has children — `a` and `a()` are different trees, the latter
+has one child with the empty name) and of depth ≤ 403 (deeper ones are rejected:
+`printed_deep_tree_rejected`).  The parser succeeds and the node table it builds, read in
+pre-order with the child counts (`toTree`, which is how `TreeIterItem::children` walks it),
+is `t` itself: same names, same bracket kinds (`(` vs `{`), same children in the same order. -/
+theorem parse_print_roundtrip (t : Tree) (hw : t.WF) (hd : t.depth ≤ 403) :
+    ∃ nodes, fromStrInner t.print = .ok nodes ∧ toTree nodes = some t := by
+  obtain ⟨nodes, hok, _, _⟩ := printed_tree_accepted_partial t hw hd
+  refine ⟨nodes, hok, ?_⟩
+  unfold fromStrInner at hok
+  rw [parsePreCheck_print t hw hd] at hok
+  exact toTree_of_preorder nodes t (build_print t hw _ _ nodes hok)
+
+/-- a taproot descriptor shape: round and curly children, a threshold, a hash, a lock, wrappers,
+an empty name (the nested `{…}` of the tap tree) -/
+example : ∃ nodes,
+    fromStrInner "tr(K,{thresh(2,pk(A),s:sha256(H),sln:older(144)),{pk(B),multi_a(1,C,D)}})".toList
+      = .ok nodes ∧
+    toTree nodes = some (rnd "tr" [leaf "K", crl "" [
+      rnd "thresh" [leaf "2", rnd "pk" [leaf "A"], rnd "s:sha256" [leaf "H"], rnd "sln:older" [leaf "144"]],
+      crl "" [rnd "pk" [leaf "B"], rnd "multi_a" [leaf "1", leaf "C", leaf "D"]]]]) := by
+  have h := parse_print_roundtrip (rnd "tr" [leaf "K", crl "" [
+      rnd "thresh" [leaf "2", rnd "pk" [leaf "A"], rnd "s:sha256" [leaf "H"], rnd "sln:older" [leaf "144"]],
+      crl "" [rnd "pk" [leaf "B"], rnd "multi_a" [leaf "1", leaf "C", leaf "D"]]]])
+    (by simp [crl, rnd, leaf, Tree.WF, Tree.WFList, NameOk, special, validChar]) (by decide)
+  have e : (rnd "tr" [leaf "K", crl "" [
+      rnd "thresh" [leaf "2", rnd "pk" [leaf "A"], rnd "s:sha256" [leaf "H"], rnd "sln:older" [leaf "144"]],
+      crl "" [rnd "pk" [leaf "B"], rnd "multi_a" [leaf "1", leaf "C", leaf "D"]]]]).print
+      = "tr(K,{thresh(2,pk(A),s:sha256(H),sln:older(144)),{pk(B),multi_a(1,C,D)}})".toList := by
+    decide +kernel
+  rw [e] at h
+  exact h
+
+/-- the parser is a left inverse of the printer, so the printer is injective on these trees -/
+theorem print_injective (t u : Tree) (ht : t.WF) (hu : u.WF) (hdt : t.depth ≤ 403)
+    (hdu : u.depth ≤ 403) (h : t.print = u.print) : t = u := by
+  obtain ⟨n1, h1, r1⟩ := parse_print_roundtrip t ht hdt
+  obtain ⟨n2, h2, r2⟩ := parse_print_roundtrip u hu hdu
+  rw [h, h2] at h1
+  have : n2 = n1 := by injection h1
+  rw [this, r1] at r2
+  exact Option.some.inj r2
 
 /-- instances: all 14 trees of depth ≤ 1 (1–2 children, leaves `` / `a:b`, inner nodes `(…)` /
 `a{…}`) and five descriptor-shaped trees round-trip (kernel evaluation) -/
